@@ -6,8 +6,8 @@ import argparse, hashlib, itertools, json, os, shutil, subprocess, sys, time
 sys.path.insert(0, "/verif/lib")
 from common import *
 
-INPUTS = ["main", "a", "b", "embed", "cfile", "header", "tag", "decl"]          # components of the version vector
-EVENTS = ["edit-main", "edit-a", "edit-b", "edit-embed", "edit-cfile", "edit-header", "edit-decl", "toggle-tag", "touch-b", "noop", "clear-cache", "edit-b-samesize"]
+INPUTS = ["main", "a", "b", "embed", "cfile", "header", "tag", "decl", "x", "abi", "trace"]          # components of the version vector
+EVENTS = ["edit-main", "edit-a", "edit-b", "edit-embed", "edit-cfile", "edit-header", "edit-decl", "toggle-tag", "touch-b", "noop", "clear-cache", "edit-b-samesize", "set-x", "toggle-abi", "toggle-trace"]
 THOROUGH_EVENTS = EVENTS + ["edit-b-keep-mtime"]
 
 
@@ -15,12 +15,12 @@ def files(vec):
     v = vec
     return {
         "go.mod": "module vt\n\ngo 1.24\n",
-        "main.go": 'package main\n\nimport "vt/a"\n\nconst mainVer = %d\n\nfunc main() {\n\tprintln("main", mainVer)\n\ta.Report()\n}\n' % v["main"],
+        "main.go": 'package main\n\nimport "vt/a"\n\nconst mainVer = %d\n\nfunc main() {\n\tprintln("main", mainVer)\n\ta.Report()\n\tprintln("sum", a.Sum(a.Big{A: 1, B: 20, C: 300, D: 4000, F: 0.5}, 7))\n}\n' % v["main"],
         "a/a.go": 'package a\n\nimport (\n\t_ "unsafe"\n\n\t"vt/b"\n)\n\nconst LLGoFiles = "wrap/wrap.c"\n\n//go:linkname cver C.vt_cver\nfunc cver() int32\n\n//go:linkname hver C.vt_hver\nfunc hver() int32\n\n'
-                  'const aVer = %d\n\nfunc Report() {\n\tprintln("a", aVer)\n\tprintln("cfile", cver())\n\tprintln("header", hver())\n\tb.Report()\n}\n' % v["a"],
+                  'const aVer = %d\n\nfunc Report() {\n\tprintln("a", aVer)\n\tprintln("cfile", cver())\n\tprintln("header", hver())\n\tb.Report()\n}\n\ntype Big = b.Big\n\n//go:noinline\nfunc Sum(x Big, k int) int { return b.Sum(k, x) + k }\n' % v["a"],
         "a/wrap/wrap.c": '#include "wrap.h"\nint vt_cver(void) { return %d; }\nint vt_hver(void) { return VT_HVER; }\n' % v["cfile"],
         "a/wrap/wrap.h": "#define VT_HVER %d\n" % v["header"],
-        "b/b.go": 'package b\n\nimport (\n\t_ "embed"\n\n\t"vt/d"\n)\n\n//go:embed data.txt\nvar data string\n\nconst bVer = %d\n\nfunc Report() {\n\tprintln("b", bVer)\n\tprintln("embed", data)\n\tprintln("tag", tagVer)\n\tprintln("decl", d.Ver, len(d.Rec{}.Pad))\n}\n' % v["b"],
+        "b/b.go": 'package b\n\nimport (\n\t_ "embed"\n\n\t"vt/d"\n)\n\n//go:embed data.txt\nvar data string\n\nconst bVer = %d\n\nfunc Report() {\n\tprintln("b", bVer)\n\tprintln("embed", data)\n\tprintln("tag", tagVer)\n\tprintln("decl", d.Ver, len(d.Rec{}.Pad))\n\tprintln("x", xVar)\n}\n\nvar xVar = "unset"\n\ntype Big struct {\n\tA, B, C, D int64\n\tF float64\n}\n\n//go:noinline\nfunc Sum(k int, x Big) int { return int(x.A+x.B+x.C+x.D) + int(x.F*2) + k }\n' % v["b"],
         # a declaration-only package (the usual shape of llgo binding packages): emits no code of its own, its constants and layouts are compiled into its importers
         "d/d.go": 'package d\n\nconst LLGoPackage = "decl"\n\nconst Ver = %d\n\ntype Rec struct{ Pad [%d]byte }\n' % (v["decl"], v["decl"]),
         "b/data.txt": "e%d" % v["embed"],
@@ -30,7 +30,7 @@ def files(vec):
 
 
 def expected(vec):
-    return "main %d\na %d\ncfile %d\nheader %d\nb %d\nembed e%d\ntag %d\ndecl %d %d\n" % (vec["main"], vec["a"], vec["cfile"], vec["header"], vec["b"], vec["embed"], vec["tag"], vec["decl"], vec["decl"])
+    return "main %d\na %d\ncfile %d\nheader %d\nb %d\nembed e%d\ntag %d\ndecl %d %d\nx x%d\nsum 4336\n" % (vec["main"], vec["a"], vec["cfile"], vec["header"], vec["b"], vec["embed"], vec["tag"], vec["decl"], vec["decl"], vec["x"]) + "trace vt/a.Report %d\ntrace vt/b.Report %d\n" % (vec["trace"], vec["trace"])
 
 
 class World:
@@ -40,6 +40,8 @@ class World:
         self.xdg = os.path.join(root, "xdg")
         self.vec = {k: 1 for k in INPUTS}
         self.vec["tag"] = 0
+        self.vec["abi"] = 2
+        self.vec["trace"] = 0
         self.clock = 1_700_000_000
         os.makedirs(self.src)
         if template:
@@ -70,6 +72,12 @@ class World:
             self.write(rel, files(v)[rel], keep_mtime=(ev == "edit-b-keep-mtime"))
         elif ev == "toggle-tag":
             v["tag"] = 1 - v["tag"]
+        elif ev == "set-x":
+            v["x"] = v["x"] % 8 + 1
+        elif ev == "toggle-abi":
+            v["abi"] = 0 if v["abi"] == 2 else 2
+        elif ev == "toggle-trace":
+            v["trace"] = 1 - v["trace"]
         elif ev == "touch-b":
             self.write("b/b.go", files(v)["b/b.go"])
         elif ev == "clear-cache":
@@ -91,6 +99,12 @@ class World:
             cmd.append("-gen-llfiles")
         if self.vec["tag"]:
             cmd += ["-tags", "vtag"]
+        cmd += ["-abi", str(self.vec["abi"])]
+        e["VERIF_X"] = "vt/b.xVar=x%d" % self.vec["x"]       # the -X string override (tc/src/xrewrite.go hands it to build.Config.GlobalRewrites)
+        if self.vec["trace"]:
+            e["LLGO_TRACE"] = "1"
+        else:
+            e.pop("LLGO_TRACE", None)
         cmd.append(".")
         r = subprocess.run(cmd, cwd=self.src, env=e, capture_output=True, text=True, timeout=900)
         if r.returncode != 0:
@@ -98,6 +112,10 @@ class World:
         hits = r.stderr.count("CACHE HIT")
         miss = r.stderr.count("CACHE MISS")
         rc, out, err = run_exe(exe, timeout=30)
+        if rc == 0:
+            # LLGO_TRACE=1 compiles a "call <function>" line (stdout) into every function entry: a package served stale from the cache lacks (or keeps) them
+            for fn in ("vt/a.Report", "vt/b.Report"):
+                err += "trace %s %d\n" % (fn, 1 if ("call " + fn + "\n") in out else 0)
         return err if rc == 0 else None, "rc=%s %s" % (rc, err[-300:]), hits, miss
 
 
@@ -118,7 +136,8 @@ def run_history(args):
         res["hits"] += h; res["miss"] += m
         res["steps"].append((ev, dict(w.vec)))
         if out != expected(w.vec):
-            stale = [k for k in INPUTS if out is not None and ("%s %s%d" % (k, "e" if k == "embed" else "", w.vec[k])) not in out]
+            got_lines = set((out or "").split("\n"))
+            stale = [] if out is None else sorted(set(ln.split(" ")[0] if not ln.startswith("trace") else "trace" for ln in expected(w.vec).split("\n") if ln and ln not in got_lines))
             res["violation"] = ("stale:" + "+".join(stale) if stale else "/".join(hist[:i + 1]), "after %s the cached build prints %r, the inputs dictate %r %s" % (
                 " -> ".join(hist[:i + 1]), out, expected(w.vec), "" if out is not None else err))
             break
@@ -202,8 +221,9 @@ if __name__ == "__main__":
         hists = [list(h) for d in range(1, depth + 1) for h in itertools.product(evs, repeat=d)]
     else:
         # quick: every event from the initial state, every edit after a cache clear and before a no-op rebuild, and every ordered pair of the package edits
-        edits = [e for e in evs if e.startswith("edit-") or e == "toggle-tag"]
-        hists = [[e] for e in evs] + [["clear-cache", e] for e in edits] + [["edit-b", "edit-a"], ["edit-a", "edit-b"], ["edit-decl", "edit-decl"], ["edit-decl", "noop"], ["toggle-tag", "edit-b"], ["edit-b", "toggle-tag"], ["edit-b", "noop"], ["toggle-tag", "toggle-tag"]]
+        edits = [e for e in evs if e.startswith("edit-") or e in ("toggle-tag", "set-x")]
+        hists = [[e] for e in evs] + [["clear-cache", e] for e in edits] + [["edit-b", "edit-a"], ["edit-a", "edit-b"], ["edit-decl", "edit-decl"], ["edit-decl", "noop"], ["toggle-tag", "edit-b"], ["edit-b", "toggle-tag"], ["edit-b", "noop"], ["toggle-tag", "toggle-tag"],
+                                                                                        ["set-x", "set-x"], ["set-x", "noop"], ["set-x", "edit-b"], ["toggle-abi", "toggle-abi"], ["toggle-abi", "edit-b"], ["toggle-trace", "toggle-trace"], ["toggle-trace", "edit-b"]]
     if thorough:
         hists += [list(h) for h in itertools.product(["edit-b", "edit-embed", "edit-cfile", "toggle-tag", "clear-cache", "noop"], repeat=3)]
     if a.replay:
@@ -259,9 +279,10 @@ if __name__ == "__main__":
         exhaustive=True, histories=len(hists), cache_hits_seen=hits, cache_misses_seen=miss, reproducibility_pairs=nrep,
         samples=[hists[len(hists) // 2], hists[-1]],
         rule="world = module main -> a -> b -> d (b embeds a data file and has a build-tag-gated file pair, a has an LLGoFiles C file with a header, d is a declaration-only package whose constant and type layout are compiled into b); events = %s; "
-             "every history of length <=%d%s is replayed on a fresh world with its own cache directory; state = version vector of the 8 inputs; after every step the program "
+             "every history of length <=%d%s is replayed on a fresh world with its own cache directory; state = version vector of the inputs (8 files/tags, the -X override of a string in b, the ABI mode with a by-value struct crossing main -> a -> b, LLGO_TRACE); after every step the program "
              "built with the cache must print exactly the versions of its inputs (which is what a clean build prints); mtimes are set explicitly and strictly increasing" % (
                  evs, depth, " plus all length-3 histories over 6 events" if thorough else ""))
-    rep.assumptions += ["-X overrides are not reachable from the llgo command line and are not enumerated", "environment-variable inputs (LLGO_*) are not toggled",
+    rep.assumptions += ["-X string overrides have no command-line spelling in this llgo; they are passed through build.Config.GlobalRewrites by an overlay file in cmd/llgo (tc/src/xrewrite.go) that otherwise runs what `llgo build` runs",
+                        "of the behaviour-affecting environment variables only LLGO_TRACE is toggled (its effect is observable in program output); the optimisation level is fixed at -O0 (LLVM 14)",
                         "main packages are never cached by design; staleness can only show through packages a and b"]
     rep.finish()
